@@ -22,8 +22,23 @@ def parseFile (s : String) : Option F :=
            members := parseList (rest.headD "-") }
   | _ => none
 
-def parseFiles (s : String) : Option (List F) :=
-  if s == "-" then some [] else (s.splitOn ",").mapM parseFile
+/-- flag `n` of the wire form `stem:parent:members:uses:flags` (`wsutil::render`): the file has no class header.  It
+    declares no class: the builder reads it (it takes its place in the enumeration and in its chunk) and skips it, a
+    class that names it as parent has a parent without a class, and no question is asked about it.  The other flags
+    (`h`, and what stands above the header / how the file is encoded: `b c k a l m r`) do not change what a file declares. -/
+def hasHeader (s : String) : Bool :=
+  match s.splitOn ":" with
+  | _ :: _ :: _ :: _ :: flags :: _ => !(flags.toList.contains 'n')
+  | _ => true
+
+/-- every file of the case line, with `true` for the files that declare a class -/
+def parseFilesAll (s : String) : Option (List (F × Bool)) :=
+  if s == "-" then some [] else (s.splitOn ",").mapM fun w => (parseFile w).map fun f => (f, hasHeader w)
+
+def classesOf (l : List (F × Bool)) : List F := l.filterMap fun p => if p.2 then some p.1 else none
+
+/-- the class files of the case line -/
+def parseFiles (s : String) : Option (List F) := (parseFilesAll s).map classesOf
 
 def parseNums (s : String) : List Nat := (s.splitOn ".").filterMap String.toNat?
 
@@ -108,11 +123,13 @@ def fineSchedule (atomic : Bool) (chunks : List (List F)) (workers : Nat) (sched
 def runWith (atomic : Bool) (args : List String) : String :=
   match args with
   | [files, chunk, workers, sched, order] =>
-    match parseFiles files, chunk.toNat?, workers.toNat? with
-    | some fs, some k, some w =>
-      let ord := if order == "-" then List.range fs.length else parseNums order
-      let enumerated := ord.filterMap (fun i => fs[i]?)
-      let chunks := chunksOf k enumerated
+    match parseFilesAll files, chunk.toNat?, workers.toNat? with
+    | some all, some k, some w =>
+      let fs := classesOf all
+      let ord := if order == "-" then List.range all.length else parseNums order
+      let enumerated := ord.filterMap (fun i => all[i]?)
+      -- the chunks are cut over ALL files; a file without header contributes no step to its chunk
+      let chunks := (chunksOf k enumerated).map classesOf
       let fine := fineSchedule atomic chunks w sched
       let t := buildConc atomic up chunks fine
       " ".intercalate (answers fs t)
